@@ -118,23 +118,24 @@ type Fault struct {
 type Obs struct {
 	Fault *Fault // input: where to panic, nil = nowhere
 
-	Called     int    // number of CallFunc invocations
-	NilHandler bool   // CallFunc got h == nil
-	HID        string // full handler ID (with middleware wrappers)
-	Kind       string // kind of the innermost handler
-	CoreID     string
-	Trail      []string
-	NodeNil    bool
-	Pattern    string // route.Node().Pattern()
-	Methods    []string
-	Allow      string // route.Node().AllowHeader()
-	HNodePat   string // builder-made handler: captured node's pattern
-	HAllow     string // builder-made handler: captured node's AllowHeader() now
-	Router     string
-	Params     map[string]string
-	ParamsBad  string // non-empty: accessors disagreed
-	Path       string // req.URL.Path seen by the handler
-	WIsHead    bool   // ResponseWriter given to the handler is not the harness writer
+	Called      int    // number of CallFunc invocations
+	NilHandler  bool   // CallFunc got h == nil
+	HID         string // full handler ID (with middleware wrappers)
+	Kind        string // kind of the innermost handler
+	CoreID      string
+	Trail       []string
+	NodeNil     bool
+	Pattern     string // route.Node().Pattern()
+	Methods     []string
+	MethodsLive []string // not a copy: what Node().Methods() returned
+	Allow       string   // route.Node().AllowHeader()
+	HNodePat    string   // builder-made handler: captured node's pattern
+	HAllow      string   // builder-made handler: captured node's AllowHeader() now
+	Router      string
+	Params      map[string]string
+	ParamsBad   string // non-empty: accessors disagreed
+	Path        string // req.URL.Path seen by the handler
+	WIsHead     bool   // ResponseWriter given to the handler is not the harness writer
 
 	Status  int
 	Header  http.Header // as sent
@@ -220,7 +221,8 @@ func Call(w http.ResponseWriter, r *http.Request, route types.Route, h *H) {
 			o.NodeNil = true
 		} else {
 			o.Pattern = n.Pattern()
-			o.Methods = append([]string(nil), n.Methods()...)
+			o.MethodsLive = n.Methods() // the very slice mux handed out
+			o.Methods = append([]string(nil), o.MethodsLive...)
 			o.Allow = n.AllowHeader()
 		}
 		ps := route.Params()
